@@ -234,7 +234,8 @@ class Run:
         if lost:
             unknown = [k for k in lost if not any(kf.get("status") == "open" and vlib._key_match(kf["key"], k) for kf in ctx.known)]
             if unknown:
-                raise vlib.InfraError("contradiction(s) did not reproduce on re-execution: %s" % unknown)
+                detail = "; ".join("%s: %s" % (k, str(firsts[k][0].get("got", ""))[:1200]) for k in unknown)
+                raise vlib.InfraError("contradiction(s) did not reproduce on re-execution: %s\n%s" % (unknown, detail))
         return counts
 
     # ---- coverage ---------------------------------------------------------------------------------
